@@ -1,0 +1,39 @@
+//go:build verif
+
+package kernel
+
+import (
+	"fmt"
+
+	"github.com/MixinNetwork/mixin/common"
+	"github.com/MixinNetwork/mixin/crypto"
+	"github.com/MixinNetwork/mixin/kernel/internal"
+)
+
+// Verification hooks for the crash/restart checks (C21, C22).  Thin wrappers
+// only: no kernel logic is copied here.
+
+// VerifC21MockRunAggregators toggles the test switch that keeps BootChain from
+// starting the per-chain background goroutines, so that a workload issues its
+// storage calls from one goroutine in a reproducible order.
+func VerifC21MockRunAggregators(mock bool) {
+	internal.ToggleMockRunAggregators(mock)
+}
+
+// VerifC21CosiFinalize hands one finalized snapshot received from peerId to the
+// chain's action handler, exactly as the chain loop does for a
+// CosiActionFinalization action.
+func (node *Node) VerifC21CosiFinalize(peerId crypto.Hash, s *common.Snapshot) (bool, []crypto.Hash, error) {
+	chain := node.getOrCreateChain(s.NodeId)
+	if chain == nil {
+		return false, nil, fmt.Errorf("no chain for %s", s.NodeId)
+	}
+	m := &CosiAction{PeerId: peerId, Action: CosiActionFinalization, Snapshot: s}
+	err := chain.cosiHandleAction(m)
+	return m.finalized, m.WantTxs, err
+}
+
+// VerifC21ElectSnapshotNode exposes electSnapshotNode.
+func (node *Node) VerifC21ElectSnapshotNode(operation byte, now uint64) crypto.Hash {
+	return node.electSnapshotNode(operation, now)
+}
